@@ -236,3 +236,16 @@ PROPS["C03"]["assumptions"] = PROPS["C03"]["assumptions"] + [
     "Han (Props/C03e.v), on the subdomain of KEYWORD-FREE names (as Props/C01e.v): TERM level -- every surface tree with well-formed keyword-free atoms, any spacing, derived copulas: both pipelines return its meaning (the two unamb hypotheses of C03b discharged); VALUE level -- for every well-formed value the enum and the lexical formatter's texts have the same whitespace-free form (no name condition), and with keyword-free names the lexical parser reads the enum formatter's text (and every text with that whitespace-free form) as lex_of_narsese v, fold returns v, the enum parser returns v (C01e): both pipelines agree; also with the term written as any surface tree. Oracle hypotheses only (f64 Display/FromStr contract). The K3 space-disagreement example lies outside the subdomain; outside it Han stays under the explicit conditions of Props/C03b.v, nothing at the value level",
 ]
 PROPS["C09"]["props"] = PROPS["C09"]["props"] + ["Props/C03e.v"]   # C09_han_* corollaries live there
+
+
+# the pure data tables (T1 enum formats, T2 lexical formats, T2v lexical vocabulary) have a second source: the constants AS
+# COMPILED (table T0 = Gen/FormatsDump.v, from `nvh dump-formats`).  Every property that rests on one of those tables also
+# carries the obligations of Props/Tie.v: source-read tables = compiled tables, dictionary model = real dictionaries.
+for _p, _cfg in PROPS.items():
+    if any(t in _cfg.get("tables", []) for t in ("T1", "T2", "T2v")):
+        _cfg["tables"] = list(_cfg["tables"]) + ["T0"]
+        _cfg["props"] = list(_cfg.get("props", [])) + ["Props/Tie.v"]
+        _cfg["trusted_base"] = list(_cfg.get("trusted_base", [])) + [
+            "harness/src/dumpfmt.rs: field-by-field dump of the COMPILED format constants and dictionaries (nvh dump-formats), "
+            "cross-checked against the tables read from the source text on every run (tools/fmtdump.py, Props/Tie.v) and used "
+            "in their place when the source is written in a shape tools/translate.py does not read"]
